@@ -61,10 +61,7 @@ Definition C31_statement : Prop := C31_label_statement (fun _ => True) /\ C31_sh
    while process 0 was in the middle of replacing it - unlinked the file process 0 had just linked: it was
    built from an EMPTY directory.  (dir_fail_witness: on another schedule process 1 fails with ENOTEMPTY.) *)
 Theorem C31_refuted : ~ C31_statement.
-Proof.
-  intros [_ Hd]. specialize (Hd 1 true dw_silent).
-  destruct dir_silent_witness as (_ & _ & _ & Hbad). cbv zeta in Hbad. rewrite Hd in Hbad. discriminate.
-Qed.
+Proof. exact (fun Hs => shared_dir_refuted (proj2 Hs)). Qed.
 Print Assumptions C31_refuted.
 
 Example C31_refuted_witnesses :
